@@ -535,6 +535,31 @@ func finePauseManyConsumers(seed uint64) []lib.Case {
 	return []lib.Case{cr.finish("pause-many-consumers#"+strconv.FormatUint(seed, 10), seed, nil, nil)}
 }
 
+// ---- known finding K10: go-diskqueue reads at the end of a file the writer has just rolled
+// away from when the reader had caught up (spurious EOF), renames the file to *.bad, and
+// neither it nor nsqd ever removes it - it survives the deletion of its channel ----
+func fineBadFileSurvivesDelete(seed uint64) []lib.Case {
+	cr := newFineCase(seed, 0) // mem-queue-size 0: everything goes through the disk queues
+	cr.countBad = true
+	cr.opCreateTopic(1)
+	cr.opCreateChan(1, 1)
+	k1 := cr.opConnect(false, false)
+	cr.opSub(k1, 1, 1)
+	cr.opRdy(k1, 10)
+	// three records of about 1070 bytes fill 3210 of the 4096 bytes of a file; each is read
+	// and delivered before the next is written, so the reader has caught up ..
+	for i := 0; i < 3; i++ {
+		cr.opPubSized(1, maxMsgSize-12)
+	}
+	// .. when the fourth does not fit any more and the writer rolls to the next file
+	cr.opPubSized(1, maxMsgSize-12)
+	for tg, id := range k1.held {
+		cr.answer(k1, "FIN", tg, id, 0)
+	}
+	cr.opDeleteChan(1, 1)
+	return []lib.Case{cr.finish("bad-file-survives-delete#"+strconv.FormatUint(seed, 10), seed, nil, nil, "kf=K10")}
+}
+
 // ---- graceful Exit while a TOUCH is between its in-flight pop and its push back: the
 // message is in no set when the channel's backlog is written ----
 func fineExitWhileTouching(seed uint64) []lib.Case {
@@ -1075,6 +1100,7 @@ var fineScenarios = map[string]func(uint64) []lib.Case{
 	"sub-vs-channel-delete":          fineSubWhileChannelDeleting,
 	"start-during-exit":              fineStartWhileExiting,
 	"pause-many-consumers":           finePauseManyConsumers,
+	"bad-file-survives-delete":       fineBadFileSurvivesDelete,
 	"touch-vs-empty":                 fineEmptyWhileTouching,
 	"dscan-vs-empty":                 fineEmptyVsDeferredScan,
 	"two-deletes-on-ephemeral-topic": fineTwoDeletesOnEphemeralTopic,
@@ -1099,7 +1125,7 @@ var fineScenarios = map[string]func(uint64) []lib.Case{
 // which forced interleavings each property's profile runs
 var fineByProfile = map[string][]string{
 	"c01": {"pump-vs-sub", "deliver-vs-disconnect", "touch-cap", "exit-vs-pub", "fin-vs-timeout-scan"},
-	"c08": {"deliver-vs-empty", "sub-vs-topic-delete", "fin-vs-empty", "empty-vs-wakeup", "scan-vs-empty", "req-vs-empty", "pub-vs-topic-delete", "two-deletes-on-ephemeral-topic", "touch-vs-empty", "dscan-vs-empty", "sub-vs-channel-delete"},
+	"c08": {"deliver-vs-empty", "sub-vs-topic-delete", "fin-vs-empty", "empty-vs-wakeup", "scan-vs-empty", "req-vs-empty", "pub-vs-topic-delete", "two-deletes-on-ephemeral-topic", "touch-vs-empty", "dscan-vs-empty", "sub-vs-channel-delete", "bad-file-survives-delete"},
 	"c03": {"fin-vs-empty", "deliver-vs-empty", "pause-vs-pump", "pause-many-consumers"},
 	"c13": {"fin-vs-empty", "deliver-vs-empty", "touch-cap", "sub-vs-channel-delete"},
 	"c02": {"deliver-vs-disconnect", "touch-then-scan", "touch-cap", "touch-vs-timeout-scan", "sub-vs-channel-delete"},
